@@ -7,6 +7,7 @@ from ..psi import fmt
 from . import common
 from .open_model import layout
 from .seqlock_model import classify_effects
+from .startup_model import StartupModel, FileImage, truncates
 
 LEVEL = 'other'
 
@@ -30,119 +31,121 @@ def lossless_origin(v):
         if v[0] == 't' and v[1] == 'call' and v[2][0].split('::')[-1] in passthrough and len(v[2]) >= 3:
             v = v[2][2]
             continue
+        if v[0] == 't' and v[1] == 'call' and 'NonZero' in v[2][0] and v[2][0].endswith(('::new', '::new_unchecked', '::get')) and len(v[2]) >= 3:
+            v = v[2][2]
+            continue
         return v
 
 
-def helpers(fb):
-    out = {}
-    for b in fb.bodies(common.SHM):
-        if (b.impl_self or '').endswith('ShmWriter') and b.defkind != 'Closure':
-            out[b.name] = b
+def path_sym(m):
+    """the symbol of ShmWriter::new's path parameter"""
+    return ('sym', m.body.debug_names.get(1, 'arg1'))
+
+
+def from_path(m, sp, ef):
+    """does a call's argument derive from ShmWriter::new's path parameter?  Follows the results of earlier calls on
+    the path (CString::new(path.as_os_str().as_bytes()) ... .as_c_str()) through their arguments and pointees"""
+    leaf = path_sym(m)
+    work = list(ef['args']) + [x for x in (ef.get('pointees') or []) if x is not None]
+    seen = set()
+    for _ in range(200):
+        if not work:
+            break
+        v = work.pop()
+        if v in seen:
+            continue
+        seen.add(v)
+        for x in psi.walk(v):
+            if x == leaf:
+                return True
+            if x[0] == 't' and x[1] == 'call' and isinstance(x[2][1], int) and x[2][1] < len(sp.p.effects):
+                e2 = sp.p.effects[x[2][1]]
+                if e2['kind'] == 'call':
+                    work += [y for y in (e2.get('pointees') or []) if y is not None]
+    return False
+
+
+def segment_size_of(fb):
+    hdr, ceb = layout(fb, 'shm_header::ShmHeader'), layout(fb, 'clock_bound_shm::ClockErrorBound')
+    if hdr is None or ceb is None:
+        return None
+    n = hdr['size'] + ceb['size']
+    return n if n % 8 == 0 else n + (8 - n % 8)
+
+
+def wipe_sequence(fb, chk, m=None):
+    """what the start-up writes to the file it creates, on the Ok paths of ShmWriter::new that create it"""
+    m = m or StartupModel(fb, chk, 'C04.T6')
+    if not m.ok:
+        return None
+    oks = [sp for sp in m.paths if sp.ok and sp.creates]
+    if not oks:
+        chk.missing('C04.T6', 'Ok path of ShmWriter::new that creates the file')
+        return None
+    infos = []
+    for sp in oks:
+        img = FileImage(sp)
+        mlen = None
+        for n, ef in sp.maps:
+            for a in ef['args']:
+                o = lossless_origin(a)
+                if psi.is_int_const(o) and o[1] > 0 and mlen is None and a[0] != 'c':
+                    mlen = o[1]
+        infos.append({'image': img, 'where': sp.creates[0][1]['site'][2], 'creates': [k for _, _, k in sp.creates],
+                      'truncates': [k for _, _, k in sp.creates if truncates(k)], 'path': sp.p, 'sp': sp, 'map_len': mlen,
+                      'segsize_arg': segment_size_of(fb)})
+    first = infos[0]
+    first['all'] = infos
+    return first
+
+
+def header_fields(fb):
+    """[(offset, width, name)] of the header as rustc laid it out, the magic pair split in its two words"""
+    hdr = layout(fb, 'shm_header::ShmHeader')
+    out = []
+    for f in sorted(hdr['variants'][0]['fields'], key=lambda f: f['offset']):
+        if f['name'] == 'magic':
+            out += [(f['offset'], 4, 'magic0'), (f['offset'] + 4, 4, 'magic1')]
+        else:
+            out.append((f['offset'], f['size'], f['name']))
     return out
 
 
-def wipe_sequence(fb, chk):
-    hs = helpers(fb)
-    w = hs.get('wipe')
-    new = hs.get('new')
-    if w is None or new is None:
-        chk.missing('C04.T6', 'ShmWriter::wipe / ShmWriter::new')
+def image_value(img, off, width):
+    """integer constant (or the origin term) the image holds at a header field"""
+    v = img.value_at(off, width)
+    if v is None:
         return None
-    chk.saw(w)
-    eng = common.mk_engine(fb)
-    oks = [p for p in eng.run(w) if p.kind == 'return' and p.value[0] == 'agg' and p.value[2] == 'Ok']
-    chk.analysed['paths'] += len(oks)
-    if not oks:
-        chk.missing('C04.T6', 'Ok path of wipe')
-        return None
-    p = max(oks, key=lambda x: len(x.effects))
-    seq = []
-    creates = []
-    truncates = []
-    for ef in p.effects:
-        if ef['kind'] != 'call' or ef['tracing']:
-            continue
-        nm = ef['callee'].split('::')[-1]
-        if nm in ('write_u8', 'write_u16', 'write_u32', 'write_u64', 'write_i32', 'write_i64'):
-            v = ef['args'][1]
-            core_v = lossless_origin(v)
-            val = v[1] if psi.is_int_const(v) else ('segsize' if core_v == ('sym', 'segsize') else fmt(v)[:80])
-            endian = [crate_ty for crate_ty in ((ef['fn'] or {}).get('targs') or [])]
-            seq.append((int(nm.split('_')[1][1:]) // 8, val))
-        elif nm == 'write_all':
-            # the buffer: vec![elem; n] built earlier on this path
-            desc = fmt(ef['args'][1])[:200]
-            for e2 in p.effects:
-                if e2['kind'] == 'call' and e2['callee'].endswith('from_elem') and len(e2['args']) >= 2:
-                    desc = 'vec![%s; %s]' % (fmt(e2['args'][0]), fmt(e2['args'][1]))
-            seq.append(('fill', desc))
-        elif nm in ('create', 'open') or 'OpenOptions' in ef['callee']:
-            creates.append(ef['callee'])
-            if ef['callee'].endswith('File::create'):
-                truncates.append('File::create (create + truncate)')
-            if ef['callee'].endswith('OpenOptions::truncate') and len(ef['args']) > 1 and psi.is_int_const(ef['args'][1]) and ef['args'][1][1] == 1:
-                truncates.append('OpenOptions::truncate(true)')
-        elif nm in ('set_len', 'ftruncate'):
-            truncates.append('%s(%s)' % (nm, fmt(ef['args'][-1])[:30]))
-    # the constant new() passes as segsize
-    segarg = None
-    eng2 = common.mk_engine(fb, no_inline=lambda x: x.name in ('is_usable_segment', 'wipe', 'mmap_segment_at'))
-    for q in eng2.run(new):
-        for ef in q.effects:
-            if ef['kind'] == 'call' and ef['callee'].endswith('::wipe') and psi.is_int_const(ef['args'][1]):
-                segarg = ef['args'][1][1]
-    return {'seq': seq, 'where': w.where(0), 'segsize_arg': segarg, 'creates': creates, 'truncates': truncates, 'path': p, 'body': w}
+    o = lossless_origin(v)
+    return o[1] if psi.is_int_const(o) else v[1] if psi.is_int_const(v) else fmt(v)[:80]
 
 
-def check_new(fb, chk, rule_prefix='C04'):
-    """T1/T3/T5 on ShmWriter::new (shared with C16.V4)"""
-    hs = helpers(fb)
-    new = hs.get('new')
-    if new is None:
-        chk.missing('%s' % rule_prefix, 'ShmWriter::new')
-        return
-    chk.saw(new)
+def check_new(fb, chk, rule_prefix='C04', m=None):
+    """T1/T3 on ShmWriter::new (shared with C16.V4): file-mutating effects only after a failed probe"""
+    m = m or StartupModel(fb, chk, rule_prefix)
+    if not m.ok:
+        return m
     r1 = 'C04.T1' if rule_prefix == 'C04' else rule_prefix
     r3 = 'C04.T3' if rule_prefix == 'C04' else rule_prefix
-    eng = common.mk_engine(fb, no_inline=lambda x: x.name in ('is_usable_segment', 'wipe', 'mmap_segment_at'))
-    paths = [p for p in eng.run(new) if p.kind != 'unreachable']
-    chk.analysed['paths'] += len(paths)
     n_wipe = n_nowipe = 0
-    for p in paths:
-        calls = [ef for ef in p.effects if ef['kind'] == 'call' and not ef['tracing']]
-        names = [ef['callee'].split('::')[-1] for ef in calls]
-        probe = [ef for ef in calls if ef['callee'].endswith('::is_usable_segment')]
-        wipes = [ef for ef in calls if ef['callee'].endswith('::wipe')]
-        # truth of "probe failed" on this path
-        failed = None
-        for term, op, val, _ in p.conds:
-            if term[0] == 't' and term[1] == 'call' and term[2][0].split('::')[-1] in ('is_err', 'is_ok'):
-                t = (op == '!=' and set(val) == {0}) or (op == '==' and val == 1)
-                failed = t if term[2][0].endswith('is_err') else not t
-                # the tested value is the probe's result
-                tested = [ef for ef in calls if ef['callee'] == term[2][0]]
-                src = tested[0]['pointees'][0] if tested and tested[0]['pointees'] else None
-                chk.ob(r1, 'new:wipe-decided-by-the-probe', src is not None and src[0] == 't' and src[1] == 'call' and src[2][0].endswith('::is_usable_segment'),
-                       tested[0]['site'][2] if tested else '', 'the wipe decision tests %s' % (fmt(src)[:80] if src else None))
-            if term[0] == 't' and term[1] == 'discr' and term[2][0][0] == 't' and term[2][0][1] == 'call' and \
-                    term[2][0][2][0].endswith('::is_usable_segment') and op == '==':
-                failed = (val == 1)
-            if term[0] == 't' and term[1] == 'Eq' and term[2][0][0] == 't' and term[2][0][1] == 'discr' and psi.is_int_const(term[2][1]):
-                inner = term[2][0][2][0]
-                if inner[0] == 't' and inner[1] == 'call' and inner[2][0].endswith('::is_usable_segment'):
-                    t = (op == '!=' and set(val) == {0}) or (op == '==' and val == 1)
-                    failed = t if term[2][1][1] == 1 else not t
-                    chk.ob(r1, 'new:wipe-decided-by-the-probe', True, p.where[2], 'the wipe decision tests the result of is_usable_segment')
-        if wipes:
+    for sp in m.paths:
+        p = sp.p
+        if sp.creates:
             n_wipe += 1
-            chk.ob(r1, 'new:wipe-only-when-unusable', failed is True and bool(probe) and probe[0] in calls and
-                   calls.index(probe[0]) < calls.index(wipes[0]), wipes[0]['site'][2],
-                   'wipe() reached on a path where the usability probe %s' % ('failed' if failed else 'DID NOT FAIL (a valid segment would be re-created)'))
-        elif 'mmap_segment_at' in names:
+            n, ef, kind = sp.creates[0]
+            before = bool(sp.probes) and sp.probes[0][0] < n
+            good = (sp.probe_result == 'err' and before) or sp.probe_result is None
+            chk.ob(r1, 'new:wipe-only-when-unusable', good, ef['site'][2],
+                   'the file is (re-)created by %s on a path where the usability probe (ShmReader::new) %s' % (kind, {
+                       'err': 'failed', 'ok': 'DID NOT FAIL (a valid segment would be re-created)',
+                       'undecided': 'was called but its result NOT CONSULTED (a valid segment would be re-created)',
+                       None: 'could not be attempted (its argument could not be built)'}[sp.probe_result]),
+                   nontrivial=sp.probe_result is not None)
+        elif sp.maps:
             n_nowipe += 1
-            chk.ob(r1, 'new:takeover-in-place-when-usable', failed is False, p.where[2],
-                   'segment mapped without wipe on a path where the probe %s' % ('succeeded' if failed is False else 'failed or was not consulted'))
-        if p.kind == 'return' and p.value[0] == 'agg' and p.value[2] == 'Ok':
+            chk.ob(r1, 'new:takeover-in-place-when-usable', sp.probe_result == 'ok', sp.maps[0][1]['site'][2],
+                   'segment mapped without wipe on a path where the probe %s' % ('succeeded' if sp.probe_result == 'ok' else 'failed or was not consulted'))
+        if sp.ok:
             evs = classify_effects(p)
             stores = [e for e in evs if e.kind in ('gstore', 'vstore', 'astore', 'dwrite')]
             kinds = [e.kind for e in stores]
@@ -150,124 +153,108 @@ def check_new(fb, chk, rule_prefix='C04'):
             ok3 = kinds == ['vstore'] and psi.is_int_const(ver[0].value) and ver[0].value[1] > 0
             chk.ob(r3, 'new:stores-only-a-nonzero-version', ok3, p.where[2],
                    'ShmWriter::new writes into the mapping: %s' % [(e.kind, fmt(e.value)[:20] if getattr(e, 'value', None) else None) for e in stores])
+            chk.ob(r1, 'new:ok-only-after-mapping', bool(sp.maps), p.where[2], 'Ok path maps the segment: %s' % bool(sp.maps), nontrivial=False)
     chk.floor(r1, 'new() paths with wipe', n_wipe, 1)
     chk.floor(r1, 'new() paths without wipe', n_nowipe, 1)
+    return m
 
 
 def run(ctx, chk):
     fb = ctx.facts()
-    chk.explanation = ('T1: wipe() is reached only on the error edge of the usability probe; T2: nothing else reachable from '
-                       'ShmWriter::new creates/truncates/unlinks the file and the mapping open has no O_CREAT/O_TRUNC; T3: new() stores '
+    chk.explanation = ('T1: the file is created/truncated only on paths where the usability probe (ShmReader::new) failed; T2: every '
+                       'file-mutating call site reachable from ShmWriter::new is one of those creation effects and the mapping open has no '
+                       'O_CREAT/O_TRUNC; T3: new() stores '
                        'only a non-zero version constant into the mapping; T4: write() from any odd start keeps it and completes to '
                        'start+1 (C11, all odd values); T5: the probe is the client\'s own open routine on the same path; T6: wipe writes '
                        'magic, size, version 0, generation 0 in header field order and zero-fills to the declared size; plus the '
                        'reader guard table for version 0 / generation 0 / odd (C03.G1). NOT decided: SIGBUS on truncated mappings, '
                        'page-cache visibility, absence of a second writer, behaviour at arbitrary crash points.')
     chk.not_decided = ['crash-point behaviour itself', 'SIGBUS on truncated mappings', 'second writer process']
-    hs = helpers(fb)
-    check_new(fb, chk)
-    # ---- T5 probe = ShmReader::new on the same path
-    probe = hs.get('is_usable_segment')
-    if probe is None:
-        chk.missing('C04.T5', 'usability probe')
-    else:
-        chk.saw(probe)
-        eng = common.mk_engine(fb, no_inline=lambda x: x.name == 'new' and (x.impl_self or '').endswith('ShmReader'))
-        hit = False
-        for p in eng.run(probe):
-            for ef in p.effects:
-                if ef['kind'] == 'call' and ef['callee'].endswith('ShmReader::new'):
-                    hit = True
-                    from_path = 'path' in fmt(ef['args'][0]) or any('path' in fmt(e2['args'][0]) for e2 in p.effects if e2['kind'] == 'call' and e2['args'])
-                    chk.ob('C04.T5', 'probe:is-the-client-open-routine', from_path, ef['site'][2],
-                           'the probe calls ShmReader::new(%s)' % fmt(ef['args'][0])[:60])
-            open_ok = any(t[0] == 't' and t[1] == 'discr' and t[2][0][0] == 't' and t[2][0][1] == 'call' and
-                          t[2][0][2][0].endswith('ShmReader::new') and op == '==' and v == 0 for t, op, v, _ in p.conds)
-            if open_ok and p.kind == 'return':
-                chk.ob('C04.T5', 'probe:open-ok-implies-usable', p.value[0] == 'agg' and p.value[2] == 'Ok', p.where[2],
-                       'on a path where ShmReader::new succeeded the probe returns %s%s' % (
-                           fmt(p.value)[:50], '' if p.value[2] == 'Ok' else ' -- a segment clients can open would be wiped by a restarted daemon'))
-            if p.kind == 'return' and p.value[0] == 'agg' and p.value[2] == 'Ok':
-                opened = any(t[0] == 't' and t[1] == 'discr' and t[2][0][0] == 't' and t[2][0][1] == 'call' and
-                             t[2][0][2][0].endswith('ShmReader::new') and op == '==' and v == 0 for t, op, v, _ in p.conds)
-                chk.ob('C04.T5', 'probe:ok-iff-open-ok', opened, p.where[2], 'probe returns Ok only when ShmReader::new returned Ok: %s' % opened)
-        if not hit:
-            chk.ob('C04.T5', 'probe:is-the-client-open-routine', False, probe.where(0), 'the probe does not call ShmReader::new')
-    # ---- T2 file mutators reachable from new() outside wipe
-    new = hs.get('new')
-    if new is not None:
-        closure = {}
-        work = [new]
-        while work:
-            b = work.pop()
-            if b.path in closure or b.name == 'wipe':
+    m = check_new(fb, chk)
+    if not m.ok:
+        return
+    # ---- T5 probe = ShmReader::new on the same path as the file that is created and mapped
+    n_probe = 0
+    seen_sites = set()
+    for sp in m.paths:
+        for n, ef in sp.probes:
+            if ef['site'] in seen_sites:
                 continue
-            closure[b.path] = b
-            for bb, t, fn in common.user_calls(b):
-                nm = mir.callee_name(fn) if fn else ''
-                nb = fb.body(nm)
-                if nb is None and fn and fn.get('defkind') == 'Closure':
-                    nb = fb.body(fn['path'])
-                if nb is not None:
-                    work.append(nb)
-        n_ext = 0
-        for path, b in closure.items():
-            chk.saw(b)
-            for bb, t, fn in common.user_calls(b):
-                nm = mir.callee_name(fn) if fn else ''
-                if fb.body(nm) is not None:
+            seen_sites.add(ef['site'])
+            n_probe += 1
+            chk.ob('C04.T5', 'probe:is-the-client-open-routine', from_path(m, sp, ef), ef['site'][2],
+                   'the probe calls ShmReader::new(%s)' % fmt(ef['args'][0])[:60])
+        for n, ef, kind in sp.creates[:1]:
+            if ('create', ef['site']) not in seen_sites:
+                seen_sites.add(('create', ef['site']))
+                chk.ob('C04.T5', 'create:same-path', from_path(m, sp, ef), ef['site'][2], '%s on %s' % (kind, fmt(ef['args'][0])[:40]))
+    if not n_probe:
+        chk.missing('C04.T5', 'usability probe (a call to ShmReader::new reachable from ShmWriter::new)')
+    # ---- T2 every file-mutating call site reachable from new() is an effect the path analysis saw (and so is
+    # covered by T1); the open that precedes the mapping creates / truncates nothing
+    accounted = {ef['site'][:2] for sp in m.paths for _, ef, _ in sp.creates}
+    closure = m.reachable_bodies()
+    n_ext = 0
+    for path, b in closure.items():
+        chk.saw(b)
+        for bb, t, fn in common.user_calls(b):
+            nm = mir.callee_name(fn) if fn else ''
+            if fb.body(nm) is not None:
+                continue
+            n_ext += 1
+            last = nm.split('::')[-1]
+            bad = [mu for mu in FILE_MUTATORS if (mu in nm and '::' in mu) or last == mu]
+            if bad and (b.path, bb) not in accounted:
+                const_false = 'OpenOptions' in nm and t['args'] and len(t['args']) > 1 and t['args'][1].get('k') == 'const' and \
+                    str(t['args'][1].get('int', t['args'][1].get('bits'))) == '0'
+                if const_false:
                     continue
-                n_ext += 1
-                last = nm.split('::')[-1]
-                bad = [m for m in FILE_MUTATORS if (m in nm and '::' in m) or last == m]
-                if bad:
-                    chk.ob('C04.T2', 'new:file-mutator:%s' % nm.split('::')[-1], False, b.where(bb),
-                           '%s reachable from ShmWriter::new outside wipe(): a usable segment could be emptied or re-created' % nm)
-        chk.ob('C04.T2', 'new:no-file-mutator-outside-wipe', True, new.where(0), '%d external call sites inspected in %d functions' % (n_ext, len(closure)))
-        chk.analysed['call_sites'] += n_ext
-    mm = hs.get('mmap_segment_at')
-    if mm is not None:
-        chk.saw(mm)
-        eng = common.mk_engine(fb)
-        seen = False
-        for p in eng.run(mm):
-            for ef in p.effects:
-                if ef['kind'] == 'call' and ef['callee'].split('::')[-1] in ('open', 'openat') and len(ef['args']) >= 2:
-                    from .C02 import bits_of
-                    fl = bits_of(ef['args'][1])
-                    seen = True
-                    chk.ob('C04.T2', 'map:open-flags-no-create-no-trunc', fl is not None and not fl & (O_CREAT | O_TRUNC), ef['site'][2],
-                           'the mapping open uses flags %s (O_CREAT=0o100, O_TRUNC=0o1000 must be clear)' % (oct(fl) if fl is not None else fmt(ef['args'][1])[:40]))
-        if not seen:
-            chk.missing('C04.T2', 'open call of the mapping routine')
+                chk.ob('C04.T2', 'new:file-mutator:%s' % nm.split('::')[-1], False, b.where(bb),
+                       '%s is reachable from ShmWriter::new but on no analysed path: a usable segment could be emptied or re-created' % nm)
+    chk.ob('C04.T2', 'new:no-file-mutator-outside-wipe', True, m.body.where(0), '%d external call sites inspected in %d functions' % (n_ext, len(closure)))
+    chk.analysed['call_sites'] += n_ext
+    seen = False
+    done = set()
+    for sp in m.paths:
+        if not sp.maps:
+            continue
+        for n, ef in sp.calls:
+            if n < sp.maps[0][0] and ef['callee'].split('::')[-1] in ('open', 'openat') and len(ef['args']) >= 2 and \
+                    not ef['callee'].startswith('std::') and ef['site'] not in done:
+                done.add(ef['site'])
+                from .C02 import bits_of
+                fl = bits_of(ef['args'][1])
+                seen = True
+                chk.ob('C04.T2', 'map:open-flags-no-create-no-trunc', fl is not None and not fl & (O_CREAT | O_TRUNC), ef['site'][2],
+                       'the mapping open uses flags %s (O_CREAT=0o100, O_TRUNC=0o1000 must be clear)' % (oct(fl) if fl is not None else fmt(ef['args'][1])[:40]))
+                chk.ob('C04.T5', 'map:same-path', from_path(m, sp, ef), ef['site'][2], 'the mapping opens %s' % fmt(ef['args'][0])[:40])
+    if not seen:
+        chk.missing('C04.T2', 'open call of the mapping routine')
     # ---- T6 wipe layout
-    info = wipe_sequence(fb, chk)
+    info = wipe_sequence(fb, chk, m)
     hdr = layout(fb, 'shm_header::ShmHeader')
     if info is not None and hdr is not None:
-        fields = sorted(hdr['variants'][0]['fields'], key=lambda f: f['offset'])
-        want = []
-        for f in fields:
-            if f['name'] == 'magic':
-                want += [(4, 'magic0'), (4, 'magic1')]
-            else:
-                want.append((f['size'], f['name']))
-        seq = info['seq']
-        typed = [s for s in seq if s[0] != 'fill']
-        widths_ok = [w for w, _ in typed] == [w for w, _ in want]
-        chk.ob('C04.T6', 'wipe:typed-writes-follow-header-layout', widths_ok, info['where'],
-               'wipe writes widths %s; header fields by offset: %s' % ([w for w, _ in typed], want))
-        byname = dict(zip([n for _, n in want], [v for _, v in typed])) if widths_ok else {}
-        chk.ob('C04.T6', 'wipe:version-and-generation-zero', byname.get('version') == 0 and byname.get('generation') == 0, info['where'],
-               'wipe writes version=%s generation=%s' % (byname.get('version'), byname.get('generation')))
-        chk.ob('C04.T6', 'wipe:declared-size-is-argument', byname.get('segsize') == 'segsize', info['where'],
-               'wipe declares segment size <- %s' % (byname.get('segsize'),))
-        fills = [s for s in seq if s[0] == 'fill']
-        fill_ok = len(fills) == 1 and fills[0][1] == 'vec![0; Sub(segsize, %d)]' % hdr['size'] and seq.index(fills[0]) == len(typed)
-        chk.ob('C04.T6', 'wipe:zero-fill-to-declared-size', fill_ok, info['where'], 'body fill: %s' % (fills[0][1][:120] if fills else None))
-        chk.ob('C04.T6', 'wipe:creates-the-file-itself', any('create' in c for c in info['creates']), info['where'], 'file opened by %s' % info['creates'])
-        chk.ob('C04.T6', 'wipe:truncates-to-the-documented-size', bool(info['truncates']), info['where'],
-               'wipe %s' % ('truncates via %s' % info['truncates'] if info['truncates'] else
-                            'never truncates the file: a longer unusable file keeps its old length and trailing bytes instead of the documented layout'))
+        want = header_fields(fb)
+        for inf in info['all']:
+            img = inf['image']
+            vals = {name: image_value(img, off, w) for off, w, name in want}
+            for pr in img.problems:
+                chk.ob('C04.T6', 'wipe:image-understood', False, inf['where'], pr)
+            chk.ob('C04.T6', 'wipe:typed-writes-follow-header-layout', all(v is not None for v in vals.values()), inf['where'],
+                   'file image written after creation: %s; header fields by offset: %s' % (img.describe()[:12], want))
+            chk.ob('C04.T6', 'wipe:version-and-generation-zero', vals.get('version') == 0 and vals.get('generation') == 0, inf['where'],
+                   'wipe writes version=%s generation=%s' % (vals.get('version'), vals.get('generation')))
+            chk.ob('C04.T6', 'wipe:declared-size-is-argument', vals.get('segsize') is not None and vals.get('segsize') == inf['segsize_arg'] ==
+                   inf['map_len'], inf['where'], 'wipe declares segment size %s; header + record rounded up to 8 = %s; length mapped afterwards = %s' % (
+                       vals.get('segsize'), inf['segsize_arg'], inf['map_len']))
+            chk.ob('C04.T6', 'wipe:zero-fill-to-declared-size', img.total is not None and img.total == vals.get('segsize') and img.zero_from(hdr['size']),
+                   inf['where'], 'image length %s, declared size %s, bytes after the %d-byte header all zero: %s' % (
+                       img.total, vals.get('segsize'), hdr['size'], img.zero_from(hdr['size'])))
+            chk.ob('C04.T6', 'wipe:creates-the-file-itself', any('create' in c.lower() or 'flags' in c for c in inf['creates']), inf['where'],
+                   'file opened by %s' % inf['creates'])
+            chk.ob('C04.T6', 'wipe:truncates-to-the-documented-size', bool(inf['truncates']), inf['where'],
+                   'wipe %s' % ('truncates via %s' % inf['truncates'] if inf['truncates'] else
+                                'never truncates the file: a longer unusable file keeps its old length and trailing bytes instead of the documented layout'))
     # ---- T4 odd start (C11 evaluated on odd values), reader guard table (C03.G1), and T8: the probe
     # (= the open decision list, C16.V1-V3) rejects a file only for the documented reasons -- any
     # extra reason would make a restarted daemon wipe a segment its predecessor left valid
